@@ -29,17 +29,19 @@ CONSTANTS
   MaxOps,       \* bound on behaviour length (export configs)
   KeepSnap      \* keep per-generation tree snapshots (needed by verify -dh only)
 
-VARIABLES disk, hist, sealed, last, behav
-vars == <<disk, hist, sealed, last, behav>>
+VARIABLES disk, hist, sealed, flat, last, behav
+vars == <<disk, hist, sealed, flat, last, behav>>
 
 NoOp   == [op |-> "none"]
 NoOb   == [exit |-> 0, internal |-> FALSE, missing |-> {}, mismatch |-> {}, new |-> {}, eff |-> <<>>]
 NoLast == [op |-> NoOp, ob |-> NoOb, pre |-> <<>>, sealed |-> <<>>, ign |-> {}]
+NoFlat == [src |-> NoPath, files |-> <<>>, pats |-> <<>>, disk |-> <<>>]
 
 Init ==
   /\ disk = InitDisk
   /\ hist = [h \in CmdRoots |-> <<>>]
   /\ sealed = <<>>
+  /\ flat = NoFlat
   /\ last = NoLast
   /\ behav = <<>>
 
@@ -59,24 +61,24 @@ EnvAlter(f, c) ==           \* also "add": the file may be absent
   /\ ("distinct" \in Ops => \A q \in DOMAIN disk : disk[q] # c)   \* scopes with pairwise distinct contents
   /\ disk' = Put(f, c)
   /\ Log([op |-> "alter", p |-> f, c |-> c])
-  /\ UNCHANGED <<hist, sealed, last>>
+  /\ UNCHANGED <<hist, sealed, flat, last>>
 EnvDelete(p) ==             \* a file, or an empty directory that is not a history root
   /\ "delete" \in Ops /\ p \in DOMAIN disk \cap Mutable
   /\ disk[p] = "DIR" => (~\E q \in DOMAIN disk : Below(p, q)) /\ (p \in DOMAIN hist => hist[p] = <<>>)
   /\ disk' = Drop(p)
   /\ Log([op |-> "delete", p |-> p])
-  /\ UNCHANGED <<hist, sealed, last>>
+  /\ UNCHANGED <<hist, sealed, flat, last>>
 EnvMkdir(d) ==
   /\ "mkdir" \in Ops /\ d \in DirPaths \cap Mutable /\ d \notin DOMAIN disk /\ ParentExists(d)
   /\ disk' = Put(d, "DIR")
   /\ Log([op |-> "mkdir", p |-> d])
-  /\ UNCHANGED <<hist, sealed, last>>
+  /\ UNCHANGED <<hist, sealed, flat, last>>
 EnvRename(f, g) ==
   /\ "rename" \in Ops /\ f \in DOMAIN disk \cap Mutable /\ disk[f] # "DIR"
   /\ g \in FilePaths /\ g \notin DOMAIN disk /\ ParentExists(g)
   /\ disk' = [q \in (DOMAIN disk \ {f}) \cup {g} |-> IF q = g THEN disk[f] ELSE disk[q]]
   /\ Log([op |-> "rename", p |-> f, q |-> g])
-  /\ UNCHANGED <<hist, sealed, last>>
+  /\ UNCHANGED <<hist, sealed, flat, last>>
 
 (***************************************************************************)
 (* Commands.  The observation of a command is what Layer M predicts.       *)
@@ -96,7 +98,7 @@ Create(R, F, nodh, dr, P) ==
         /\ Observe(o, [exit |-> r.exit, internal |-> r.abort, missing |-> r.missing,
                        mismatch |-> r.mismatch, new |-> {}, eff |-> r.eff], IgnSet(R, r.eff))
         /\ Log(o)
-  /\ UNCHANGED disk
+  /\ UNCHANGED <<disk, flat>>
 
 CreateSF(R, F, S) ==
   /\ "createsf" \in Ops /\ IsDir(disk, R) /\ S # {}
@@ -108,9 +110,10 @@ CreateSF(R, F, S) ==
         /\ Observe(o, [exit |-> r.exit, internal |-> r.abort, missing |-> {},
                        mismatch |-> r.mismatch, new |-> {}, eff |-> r.eff], {})
         /\ Log(o)
-  /\ UNCHANGED disk
+  /\ UNCHANGED <<disk, flat>>
 
 ReadOnly(o, r, eff) ==
+  /\ flat' = flat
   /\ Observe(o, [exit |-> r.exit, internal |-> FALSE, missing |-> r.missing,
                  mismatch |-> r.mismatch, new |-> r.new, eff |-> eff], IgnSet(o.R, eff))
   /\ Log(o)
@@ -131,7 +134,54 @@ VerifyDH(R) ==
      IN ReadOnly([op |-> "verifydh", R |-> R], [exit |-> r.exit, missing |-> {}, mismatch |-> r.baddirs, new |-> {}],
                  EffPats(hist, R, <<>>))
 
-Ack == last.op.op # "none" /\ last' = NoLast /\ UNCHANGED <<disk, hist, sealed, behav>>
+\* flatten writes a packing list outside the tree; `flat` remembers what it holds and the tree it was made from
+FlatPats(R) == Dedup(Defaults \o EffPats(hist, R, <<>>))
+Complete(R, files, pats) == \A p \in DOMAIN disk : (Below(R, p) /\ disk[p] # "DIR" /\ ~Ign(R, p, pats)) => p \in {R \o q : q \in DOMAIN files}
+Flatten(R) ==
+  /\ "flatten" \in Ops /\ IsDir(disk, R)
+  /\ LET r == TLCEval(FlattenResult(hist, R))
+         o == [op |-> "flatten", R |-> R]
+     IN /\ flat' = IF r.exit = 0 THEN [src |-> R, files |-> r.files, pats |-> FlatPats(R), disk |-> disk] ELSE flat
+        /\ Observe(o, [exit |-> r.exit, internal |-> FALSE, missing |-> {}, mismatch |-> {}, new |-> {}, eff |-> <<>>,
+                       flat |-> [files |-> r.files, ndirs |-> 0, proc |-> "flatten"]], {})
+        /\ Log(o)
+  /\ UNCHANGED <<disk, hist, sealed>>
+VerifyPL(R) ==
+  /\ "verifypl" \in Ops /\ flat.src = R /\ IsDir(disk, R)
+  /\ LET fl == [files |-> [p \in DOMAIN flat.files |-> flat.files[p]], pats |-> flat.pats]
+         r == TLCEval(VerifyPLResult(disk, R, [files |-> [p \in {R \o q : q \in DOMAIN flat.files} |-> flat.files[Rel(R, p)]], pats |-> flat.pats]))
+         o == [op |-> "verifypl", R |-> R]
+     IN /\ Observe(o, [exit |-> r.exit, internal |-> FALSE, missing |-> r.missing, mismatch |-> r.mismatch, new |-> r.new,
+                       eff |-> flat.pats,
+                       flat |-> [files |-> [p \in {R \o q : q \in DOMAIN flat.files} |-> flat.files[Rel(R, p)]],
+                                 complete |-> Complete(R, flat.files, flat.pats)],
+                       sealedDisk |-> flat.disk], IgnSet(R, flat.pats))
+        /\ Log(o)
+  /\ UNCHANGED <<disk, hist, sealed, flat>>
+Info(R) ==
+  /\ "info" \in Ops /\ IsDir(disk, R)
+  /\ LET r == InfoResult(hist, disk, R)
+         o == [op |-> "info", R |-> R]
+     IN /\ Observe(o, [exit |-> r.exit, internal |-> FALSE, missing |-> {}, mismatch |-> {}, new |-> {}, eff |-> <<>>,
+                       listing |-> r.listing], {})
+        /\ Log(o)
+  /\ UNCHANGED <<disk, hist, sealed, flat>>
+InfoSF(s) ==
+  /\ "infosf" \in Ops /\ s \in DOMAIN disk /\ disk[s] # "DIR"
+  /\ LET r == InfoSFResult(hist, NearestRoot(hist, disk, s), s)
+         o == [op |-> "infosf", S |-> s, R |-> NoPath]
+     IN /\ Observe(o, [exit |-> r.exit, internal |-> FALSE, missing |-> {}, mismatch |-> {}, new |-> {}, eff |-> <<>>,
+                       lines |-> r.lines], {})
+        /\ Log(o)
+  /\ UNCHANGED <<disk, hist, sealed, flat>>
+HashCmd(s) ==
+  /\ "hash" \in Ops /\ s \in DOMAIN disk /\ disk[s] # "DIR"
+  /\ \E f \in SeqSet(Fmts) :
+       /\ Observe([op |-> "hash", S |-> s, h |-> f], [exit |-> 0, internal |-> FALSE, missing |-> {}, mismatch |-> {}, new |-> {}, eff |-> <<>>], {})
+       /\ Log([op |-> "hash", S |-> s, h |-> f])
+  /\ UNCHANGED <<disk, hist, sealed, flat>>
+
+Ack == last.op.op # "none" /\ last' = NoLast /\ UNCHANGED <<disk, hist, sealed, flat, behav>>
 
 Next ==
   \/ Ack
@@ -144,7 +194,8 @@ Next ==
         \/ \E R \in CmdRoots, F \in FmtChoices, S \in SFChoices : CreateSF(R, F, S)
         \/ \E R \in CmdRoots, P \in PatChoices : Verify(R, P) \/ Diff(R, P)
         \/ \E R \in CmdRoots, s \in FilePaths : VerifySF(R, s)
-        \/ \E R \in CmdRoots : VerifyDH(R)
+        \/ \E R \in CmdRoots : VerifyDH(R) \/ Flatten(R) \/ VerifyPL(R) \/ Info(R)
+        \/ \E s \in FilePaths : InfoSF(s) \/ HashCmd(s)
 
 Spec == Init /\ [][Next]_vars
 
@@ -153,7 +204,7 @@ Spec == Init /\ [][Next]_vars
 (***************************************************************************)
 GenBound == TotalGens <= MaxGens
 OpBound  == Len(behav) <= MaxOps
-CheckView == <<disk, hist, sealed, last>>
+CheckView == <<disk, hist, sealed, flat, last>>
 
 \* export: print every behaviour that ends in a command (the harness keeps the maximal ones)
 Export ==
@@ -183,6 +234,11 @@ Inv_C08_Refs        == Obs => P_C08_Refs(pre, hist, disk, last.op, last.ob)
 Inv_C08_WhoWrites   == Obs => P_C08_WhoWrites(pre, hist, disk, last.op, last.ob, last.ign)
 Inv_C12_Excluded    == Obs => P_C12_Excluded(pre, hist, last.op, last.ob, last.ign)
 Inv_C12_Accumulate  == Obs => P_C12_Accumulate(pre, hist, last.op, last.ob)
+Inv_C18_Summary     == (Obs /\ last.op.op = "flatten") => P_C18_Summary(pre, disk, last.op, last.ob, last.ob.flat)
+Inv_C18_VerifyPL    == (Obs /\ last.op.op = "verifypl") => P_C18_VerifyPL(disk, last.ob.sealedDisk, last.op, last.ob, last.ob.flat, last.ign)
+Inv_C19_Info        == (Obs /\ last.op.op = "info") => P_C19_Info(pre, disk, last.op, last.ob)
+Inv_C19_InfoSF      == (Obs /\ last.op.op = "infosf") => P_C19_InfoSF(pre, disk, last.op, last.ob)
+Inv_C14_Frame       == (Obs /\ last.op.op \notin {"create", "createsf"}) => hist = pre
 Inv_NoInternal      == ~last.ob.internal
 \* C04 as an action property: the first recorded digest of a path and format never changes
 Act_C04_FirstRefStable ==
